@@ -25,7 +25,7 @@ RULE += ('; also: namespaces given as OrderedDict / UserDict / read-only mapping
 ASSUMPTIONS = ['attribute assignment on AttributesFrozendict does not change the mapping and is not judged',
                'specs whose non-callable default violates the port itself are rejected at definition time and skipped',
                'reference model written from the statement and documentation']
-REQUIRED = ['own_created_state_class', 'factory_defaults_compared', 'constructed', 'accepted', 'rejected', 'defaults_populated', 'callable_defaults', 'populate_defaults_false', 'dynamic_values', 'immutability_probes',
+REQUIRED = ['aliased_namespace_values', 'own_created_state_class', 'factory_defaults_compared', 'constructed', 'accepted', 'rejected', 'defaults_populated', 'callable_defaults', 'populate_defaults_false', 'dynamic_values', 'immutability_probes',
             'caller_dict_checks', 'metamorphic/idempotent', 'metamorphic/remove_required', 'metamorphic/wrong_type', 'nested_ns_levels', 'exposed_specs', 'legacy_validators', 'aliased_namespace_values', 'mapping_leaf_values']
 BOUNDS = {'quick': '250 specs (depth<=2) x 40 inputs', 'thorough': '4000 specs (depth<=3) x 60 inputs'}
 UN = '<absent>'
@@ -325,7 +325,24 @@ def _factory_specs():
                                                                         'm': ['ns', {}, {'a': ['port', {'default': ['val', 3]}]}]}]}]
 
 
+def _sibling_specs():
+    """Two sibling namespaces with the same port names and different defaults (plain, callable, none), one port that only one of them
+    declares: what the caller hands over for both may be one and the same dictionary object (common settings built once)."""
+    relax = ['ns', {}, {'n': ['port', {'default': ['val', 5], 'valid_type': 'int'}], 'a': ['port', {'default': ['call', 'serial']}], 'ab': ['port', {'default': ['val', 's'], 'valid_type': 'str'}]}]
+    final = ['ns', {}, {'n': ['port', {'default': ['val', 7], 'valid_type': 'int'}], 'a': ['port', {'default': ['call', 'cls_list']}], 'm': ['port', {'default': ['val', 1]}]}]
+    yield ['ns', {}, {'x': copy.deepcopy(relax), 'm': copy.deepcopy(final)}]
+    yield ['ns', {}, {'x': copy.deepcopy(final), 'm': copy.deepcopy(relax), 'n': ['port', {'default': ['val', 0]}]}]
+    yield ['ns', {}, {'a': ['ns', {}, {'x': copy.deepcopy(relax), 'm': copy.deepcopy(final)}]}]
+
+
 def gen_cases(tier, seed):
+    for k, spec in enumerate(_sibling_specs()):
+        top = 'a' if 'a' in spec[2] and spec[2]['a'][0] == 'ns' else None
+        for shared in ({}, {'n': 3}, {'a': '@A'}):
+            inputs = {'x': dict(shared), 'm': {'@SAME': 'x'}}
+            inputs = {top: inputs} if top else inputs
+            yield {'spec': spec, 'inputs': inputs, 'si': 200000 + 3 * k}
+            yield {'spec': spec, 'inputs': inputs, 'si': 200000 + 3 * k, 'exposed': True}
     for k, spec in enumerate(_factory_specs()):
         for inputs in (None, {}, {'x': {}}, {'x': {'m': {}}}):
             yield {'spec': spec, 'inputs': inputs, 'si': 100000 + 3 * k}
@@ -603,6 +620,22 @@ def _frozen_levels(inputs, children, path=''):
     return out
 
 
+def _unaliased(value):
+    """A copy for the reference model in which no mapping occurs twice (``copy.deepcopy`` keeps one object given for two namespaces one
+    object, and a model that fills defaults into what it is given would then share the very defect it is there to notice)."""
+    if isinstance(value, collections.OrderedDict):
+        return collections.OrderedDict((k, _unaliased(v)) for k, v in value.items())
+    if isinstance(value, collections.UserDict):
+        return collections.UserDict({k: _unaliased(v) for k, v in value.items()})
+    if isinstance(value, plumpy.utils.AttributesFrozendict):
+        return plumpy.utils.AttributesFrozendict({k: _unaliased(v) for k, v in value.items()})
+    if isinstance(value, dict):
+        return {k: _unaliased(v) for k, v in value.items()}
+    if isinstance(value, list):
+        return [_unaliased(v) for v in value]
+    return copy.deepcopy(value)
+
+
 def run_case(case):
     V = judges.V
     spec, inputs_desc = case['spec'], case['inputs']
@@ -618,7 +651,7 @@ def run_case(case):
     viol = []
     stats = {}
     try:
-        expected = model(spec, copy.deepcopy(inputs), stats)
+        expected = model(spec, _unaliased(inputs), stats)
         verdict = 'accept'
         why = ''
     except Reject as rej:
